@@ -164,6 +164,25 @@ extern "C" void verif_harness() {
     if (x == -INF && y == -INF) SYM_ASSERT(ls == -INF, "pairwise log-sum of two log-zeros is not log-zero");
     if (x < INF && y < INF) SYM_ASSERT(ls < INF, "pairwise log-sum is infinite although no term is");
     break; }
+  case 9: {  // entropy and mutual information
+    double base = symd("base"); SYM_ASSUME(base > 1.001 && base < 100);
+    { // entropy of a frequency vector: -sum_{x>0} x log x / log base (zero and negative entries are skipped)
+      int n = len("n"); V f = anyV("f", n); for (double x : f) SYM_ASSUME(x >= -1 && x <= 1);
+      double want = 0; for (double x : f) if (x > 0) want -= x * log(x) / log(base);
+      SYM_ASSERT_EQ((VectorTools::shannon<double, double>(f, base)), want, "entropy of a frequency vector differs from -sum x log x / log base"); }
+    { // entropy of a sample: counts by value; mutual information of two samples: counts of pairs
+      int n = len("m", 1); V a = anyV("a", n), b = anyV("b", n);
+      auto H = [&](const V& u, const V* w) { double h = 0; for (int i = 0; i < n; i++) { bool first = true; int c = 0; for (int j = 0; j < n; j++) { bool same = u[j] == u[i] && (!w || (*w)[j] == (*w)[i]); if (same && j < i) first = false; if (same) c++; }
+          if (first) h -= (double(c) / n) * log(double(c) / n) / log(base); } return h; };
+      double ha = H(a, nullptr), hb = H(b, nullptr), hab = H(a, &b), L = log(base);
+      // compared through exp(m * . * log base): with the logarithms of the count ratios kept as exact atoms this is a product of integer powers of rationals
+      SYM_ASSERT_EQ(exp(n * (VectorTools::shannonDiscrete<double, double>(a, base)) * L), exp(n * ha * L), "entropy of a sample differs from the entropy of its value counts");
+      double mi = VectorTools::miDiscrete<double, double>(a, b, base);
+      SYM_ASSERT_EQ(exp(n * mi * L), exp(n * (ha + hb - hab) * L), "mutual information differs from H(X)+H(Y)-H(X,Y) of the value counts");
+      SYM_ASSERT_EQ(exp(n * (VectorTools::miDiscrete<double, double>(b, a, base)) * L), exp(n * mi * L), "mutual information is not symmetric");
+      SYM_ASSERT_EQ(exp(n * (VectorTools::miDiscrete<double, double>(a, a, base)) * L), exp(n * ha * L), "mutual information of a sample with itself is not its entropy");
+      V shorter(a.begin(), a.begin() + (n - 1)); EXPECT(DimensionException, (VectorTools::miDiscrete<double, double>(a, shorter, base)), "mutual information of samples of different lengths is not refused"); }
+    break; }
   default: { // false-discovery-rate adjustment: r_i = p_i * n / rank_i
     int n = len("n"); V p = anyV("p", n); for (double y : p) SYM_ASSUME(y >= 0 && y <= 1);
     V f = StatTools::computeFdr(p); SYM_ASSERT((int)f.size() == n, "FDR: wrong length");
